@@ -533,7 +533,16 @@ func (av *Array) ReflectTo(c px.Context, value reflect.Value) {
 	if ptr {
 		vt = vt.Elem()
 	}
-	s := reflect.MakeSlice(vt, av.Len(), av.Len())
+	var s reflect.Value
+	if vt.Kind() == reflect.Array {
+		// A Go array has a fixed length
+		if vt.Len() != av.Len() {
+			panic(px.Error(px.AttemptToSetWrongKind, issue.H{`expected`: av.PType().String(), `actual`: vt.String()}))
+		}
+		s = reflect.New(vt).Elem()
+	} else {
+		s = reflect.MakeSlice(vt, av.Len(), av.Len())
+	}
 	rf := c.Reflector()
 	for i, e := range av.elements {
 		rf.ReflectTo(e, s.Index(i))
